@@ -130,6 +130,41 @@ def dataclass_decorator(I, a, k):
     return Builtin("dataclass()", lambda I_, aa, kk: apply(aa[0]))
 
 
+def make_enum(I, cls):
+    """class C(enum.Enum): every plain assignment of the class body, in order, becomes one member (an instance of C with
+    .name / .value; a tuple value is unpacked into C.__init__ if the class defines one; enum.auto() counts from 1).  Modelled:
+    attribute access, identity / equality, iteration over the class, C(value), C[name], members as dictionary keys.
+    Aliases (two names for one value), Flag / IntEnum arithmetic, _missing_ and friends are out of reach."""
+    from ..objects import ClassMethodVal, StaticMethodVal
+    members = []
+    auto_n = 0
+    init = cls.ns.get("__init__")
+    for nm, v in list(cls.ns.items()):
+        if nm.startswith("_") or isinstance(v, (FuncVal, ClassMethodVal, StaticMethodVal, PropertyVal)) or (isinstance(v, Ext) and hasattr(v, "bind_to")):
+            continue
+        if type(v).__name__ == "AutoValue":
+            auto_n += 1
+            v = auto_n
+        elif isinstance(v, int) and not isinstance(v, bool):
+            auto_n = v
+        m = Obj(cls)
+        m.attrs["_name_"] = m.attrs["name"] = nm
+        m.attrs["_value_"] = m.attrs["value"] = v
+        members.append(m)
+        cls.ns[nm] = m
+    for i, a_ in enumerate(members):
+        for b_ in members[:i]:
+            same = ops.compare(I, "Eq", a_.attrs["value"], b_.attrs["value"]) if not (isinstance(a_.attrs["value"], Obj) or isinstance(b_.attrs["value"], Obj)) else a_.attrs["value"] is b_.attrs["value"]
+            if same is not False:
+                raise Unsupported("enum with aliases (or values whose equality is not decided)")
+    cls.enum_members = members
+    if isinstance(init, FuncVal):
+        for m in members:
+            v = m.attrs["value"]
+            I.call_function(init, [m] + (list(v) if isinstance(v, tuple) else [v]), {})
+    return cls
+
+
 class FieldSpec(Ext):
     """dataclasses.field(default=..., default_factory=...)"""
     type_name = "dataclass-field"
@@ -391,6 +426,9 @@ def make_models(extra_numpy=None):
         "ExitStack": Builtin("ExitStack", lambda I, a, k: ExitStackModel()),
         "contextmanager": Builtin("contextmanager", lambda I, a, k: ContextManagerFactory(a[0])),
     })
+    class AutoValue(Ext):
+        type_name = "enum.auto"
+    M["enum"] = ExtModule("enum", {"Enum": ExtClass("Enum"), "auto": Builtin("enum.auto", lambda I, a, k: AutoValue())})
     M["weakref"] = ExtModule("weakref", {"proxy": Builtin("proxy", lambda I, a, k: a[0])})
     M["math"] = make_math()
     M["numpy"] = make_numpy(extra_numpy)
